@@ -170,11 +170,15 @@ C11_Services(feed, r) ==
              DatesOf(typ) == LET rows == FilterSeq(LAMBDA row : Digit(Cell(row, "exception_type")) = typ, mine)
                              IN [k \in DOMAIN rows |-> Val(DateOf(Cell(rows[k], "date")))]
              excDates == {Val(DateOf(Cell(mine[k], "date"))) : k \in DOMAIN mine}
-             c == mycal[Len(mycal)]
-         IN /\ s.days = (IF mycal = <<>> THEN NoDays ELSE [d \in 1..7 |-> Digit(Cell(c, Days[d])) = 1])
+             (* "its calendar row": when several valid rows carry the id, the property does not say which one is the *)
+             (* service's row - but flags and range come from one and the same row                                    *)
+             FromRow(c) ==
+                 /\ s.days = [d \in 1..7 |-> Digit(Cell(c, Days[d])) = 1]
+                 /\ s.start = SetMin(excDates \cup {Val(DateOf(Cell(c, "start_date")))})
+                 /\ s.end = SetMax(excDates \cup {Val(DateOf(Cell(c, "end_date")))})
+         IN /\ IF mycal = <<>> THEN s.days = NoDays /\ s.start = SetMin(excDates) /\ s.end = SetMax(excDates)
+               ELSE \E n \in DOMAIN mycal : FromRow(mycal[n])
             /\ s.added = DatesOf(1) /\ s.removed = DatesOf(2)            \* in file order; a date that is not midnight in the agency zone projects to a negative token
-            /\ s.start = SetMin(excDates \cup (IF mycal = <<>> THEN {} ELSE {Val(DateOf(Cell(c, "start_date")))}))
-            /\ s.end = SetMax(excDates \cup (IF mycal = <<>> THEN {} ELSE {Val(DateOf(Cell(c, "end_date")))}))
             /\ \A k \in DOMAIN s.added : s.start <= s.added[k] /\ s.added[k] <= s.end
             /\ \A k \in DOMAIN s.removed : s.start <= s.removed[k] /\ s.removed[k] <= s.end
 (* the zone dates are expressed in: the first agency's, UTC when it cannot be loaded *)
